@@ -187,7 +187,7 @@ def observe_case(item):
                 ents[f"{t.name.lower()}%{c.name.lower()}"] = c.permission
             for b in getattr(t, "_vf_own_bps", t.boundprocs):
                 ents[f"{t.name.lower()}%{b.name.lower()}"] = b.permission
-        for p in list(m.functions) + list(m.subroutines) + list(getattr(m, "modfunctions", [])) + list(getattr(m, "modsubroutines", [])):
+        for p in list(m.functions) + list(m.subroutines) + list(getattr(m, "modfunctions", [])) + list(getattr(m, "modsubroutines", [])) + list(getattr(m, "modprocedures", [])):
             ents[p.name.lower()] = p.permission
         for it in m.interfaces:
             ents[it.name.lower() + ("@interface" if it.name.lower() in ents else "")] = it.permission
@@ -225,6 +225,23 @@ def case(arg):
         open(os.path.join(root, sm + ".f90"), "w").write(text)
         texts[sm] = text
         expected[sm] = {n: (c, "private", "submodule") for n, c in names.items()}
+        # separate module procedures: public interfaces in the ancestor, implementations (all three spellings) in a submodule stay private
+        anc2, sm2 = f"cmanc{seed % 1000}", f"cmimp{seed % 1000}"
+        kw = st.kw
+        atext = "\n".join([f"{kw('module')} {anc2}", kw("implicit none"), kw("public"), kw("interface"),
+                           f"{kw('module')} {kw('subroutine')} smp_a(x)", f"{kw('integer')}, {kw('intent')}(in) :: x", f"{kw('end')} {kw('subroutine')}",
+                           f"{kw('module')} {kw('function')} smp_f(x) {kw('result')}(r)", f"{kw('integer')}, {kw('intent')}(in) :: x", f"{kw('integer')} :: r", f"{kw('end')} {kw('function')}",
+                           f"{kw('module')} {kw('subroutine')} smp_b()", f"{kw('end')} {kw('subroutine')}",
+                           f"{kw('end')} {kw('interface')}", f"{kw('end')} {kw('module')} {anc2}"]) + "\n"
+        itext = "\n".join([f"{kw('submodule')} ({anc2}) {sm2}", kw("implicit none"), kw("contains"),
+                           f"{kw('module')} {kw('subroutine')} smp_a(x)", f"{kw('integer')}, {kw('intent')}(in) :: x", f"{kw('end')} {kw('subroutine')} smp_a",
+                           f"{kw('module')} {kw('function')} smp_f(x) {kw('result')}(r)", f"{kw('integer')}, {kw('intent')}(in) :: x", f"{kw('integer')} :: r", "r = x", f"{kw('end')} {kw('function')} smp_f",
+                           f"{kw('module')} {kw('procedure')} smp_b", f"{kw('end')} {kw('procedure')} smp_b",
+                           f"{kw('end')} {kw('submodule')} {sm2}"]) + "\n"
+        open(os.path.join(root, anc2 + ".f90"), "w").write(atext)
+        open(os.path.join(root, sm2 + ".f90"), "w").write(itext)
+        texts[sm2] = atext + itext
+        expected[sm2] = {n: ({"kind": "separate_module_procedure", "attr": "none", "stmt": "none", "place": "-"}, "private", "submodule") for n in ("smp_a", "smp_f", "smp_b")}
         # random neighbours
         for f in genmodels.gen_project(seed + 17, nfiles=2, docs=False):
             stmts = fgen.render_file(f, fgen.Style(seed + 3))
